@@ -162,4 +162,13 @@ example : gated [.read "getBug", .gate, .mutate "AddCommentRaw", .mutate "Commit
 example : run false (fun _ => false) [.read "getBug", .gate, .mutate "AddCommentRaw"] 0 [] = (.refused, []) ∧
     run true (fun _ => false) [.read "getBug", .gate, .mutate "AddCommentRaw"] 0 [] = (.done, ["AddCommentRaw"]) := by decide
 
+/-- regenerated from api/auth: the gate keeps no state between requests (its only package-level
+variables are the context key and the error value) and resolves the attached id in the repository
+the caller hands over, on every call — the user of a request is a user of the repository the request
+is aimed at, whatever was asked of another repository before -/
+theorem gen_gate_stateless :
+    GitBugModel.Gen.Resolvers.authVars = ["ErrNotAuthenticated", "identityCtxKey"] ∧
+    GitBugModel.Gen.Resolvers.gateCalls = ["ctx.Value", "r.Identities().Resolve", "r.Identities"] := by
+  decide
+
 end GitBugModel.Props.C17
